@@ -307,9 +307,18 @@ class Func(object):
                             self.blocks[s].preds.append(blk.b)
                     # In the last block of an `a && b` / `a || b` chain clang reports the whole chain as the condition;
                     # given that the block was reached, its value is that of the right-most leaf.
+                    # That holds only where the right-most leaf is evaluated in this very block.  When the operands own temporaries with destructors clang builds a JOIN block
+                    # instead: every short-circuit edge enters it and it branches on the value of the whole chain; there the chain itself stays the condition (implied_atoms()
+                    # reads what a chain's truth value says about its operands).
                     c = self.nodes.get(blk.cond) if blk.cond is not None else None
+                    els = set(e for e in (blk.elems or []) if isinstance(e, int))
                     while c is not None and c['k'] == 'BinaryOperator' and c.get('op') in ('&&', '||') and len(c['ch']) == 2:
-                        c = c['ch'][1]
+                        r = c['ch'][1]
+                        if c['op'] == '||' and els and not any(x['i'] in els for x in r.walk()):
+                            break        # join block of an || chain: `chain is true` does NOT say that the right-most operand is true
+                        # (join block of an && chain: `chain is true` does say that the right-most operand is true, and its false edge keeps being read as "the last test failed
+                        # or was never reached", which is how the pairing rules have always read `if (a && b.IsOK())`)
+                        c = r
                         blk.cond = c['i']
 
     def _adopt(self, d, parent):
